@@ -14,8 +14,9 @@
                     that expand_optimizable_while_loop drops from the loop variables (MIR level)
    K_nested_break   the single statement under the guard's `if` contains a Break without being one: the loop has
                     no break collector and the inner condition is lost (MIR level; with a collector: panic)
-   K_sr_defs        strength reduction fires and the body still binds a reduced variable: the case the theorem
-                    C02loop_sr_preserves_partial leaves out (not an error class: counted for coverage only) *)
+   K_sr_defs        strength reduction fires and the body still binds a reduced variable: the driver deletes the
+                    defining statement (covered by C02loop_sr_preserves with C02loop_sr_defs_affine; not an error
+                    class: counted for coverage only) *)
 From Coq Require Import ZArith NArith List Bool.
 Import ListNotations.
 From SV Require Import Common.Int32 C02.Kernels C02deep.Syntax C02deep.Passes
@@ -121,7 +122,8 @@ Definition K_base_dropped (lvs : list triple) (ss : list stmt) (bc : option name
   | None => false
   end.
 
-(* strength reduction fires and the body still binds a reduced variable (the case C02loop_sr_preserves_partial leaves out) *)
+(* strength reduction fires and the body still binds a reduced variable (the driver deletes the defining statement;
+   covered by C02loop_sr_preserves, counted for coverage) *)
 Definition K_sr_defs (lvs : list triple) (ss : list stmt) (bc : option name) : bool :=
   let '(_, inner, ninv) := licm lvs ss in
   match extract lvs inner bc ninv with
